@@ -284,7 +284,7 @@ def play_session(rng, n_msgs, wrap):
                     elif how == 'reject':
                         conn.send(smppref.header(0x80000004, rng.choice([0x58, 0x45, 8]), seq, b'\x00'), delay=d)
                     elif how == 'reject_bare':      # a rejection without a body, as SMPP 3.4 prescribes
-                        conn.send(smppref.header(0x80000004, rng.choice([0x58, 0x0B]), seq), delay=d)
+                        conn.send(smppref.header(0x80000004, rng.choice([0x58, 0x0B, 0x400, 0x4FF]), seq), delay=d)
                     elif how == 'nack':
                         conn.send(smppref.header(0x80000000, 3, seq), delay=d)
                 elif cmd == 0x15:
